@@ -219,3 +219,43 @@ package loadaware
 //@   assert before call balancePods#1: #nodepass: $arg2 == sourceNodes && !$arg9 && len($arg3) == len(destinationNodes) + len(bothDestinationNodes) && $arg7 == dryRun
 //@   assert before call balancePods#2: #prodpass: $arg2 == prodSourceNodes && $arg9 && len($arg3) == len(prodDestinationNodes) + len(bothDestinationNodes) && $arg7 == dryRun
 //@   assert before call balancePods: #two: calls("balancePods") <= 2
+
+// ---- Eviction order (which source node first, which pod first) ----
+
+//@ func usageToResourceList [C18]
+//@   ensures #dom: fresh(result) && (forall n corev1.ResourceName :: has(result, n) <==> has(usage, n))
+//@   ensures #val: forall n corev1.ResourceName :: has(result, n) ==> val(result, n) == deref(usage[n])
+//@   modifies nothing
+//@   loop 1 invariant fresh(m) && m != nil
+//@   loop 1 invariant forall n corev1.ResourceName :: $seen[n] ==> has(usage, n)
+//@   loop 1 invariant forall n corev1.ResourceName :: has(m, n) <==> $seen[n]
+//@   loop 1 invariant forall n corev1.ResourceName :: has(m, n) ==> val(m, n) == deref(usage[n])
+//@   loop 1 invariant forall q corev1.ResourceList, n corev1.ResourceName :: q != m ==> val(q, n) == old(val(q, n))
+
+//@ spec func sameUsage(rl corev1.ResourceList, usage map[corev1.ResourceName]*resource.Quantity) bool = (forall n corev1.ResourceName :: has(rl, n) <==> has(usage, n)) && (forall n corev1.ResourceName :: has(rl, n) ==> val(rl, n) == deref(usage[n]))
+
+// Comparator of sortNodesByUsage (source nodes are sorted with ascending == false: the node with the highest
+// weighted usage score is processed first). Element i comes before j exactly when its score - the scorer's
+// answer for node i's (prod) usage and node i's raw allocatable - is strictly smaller (ascending) / larger.
+//@ func sortNodesByUsage$1 [C18]
+//@   option observers scorer
+//@   assert before call GetNodeRawAllocatableFromNode#1: #inode: $arg0 == deref($fv_nodes)[i].NodeUsage.node
+//@   assert before call GetNodeRawAllocatableFromNode#2: #jnode: $arg0 == deref($fv_nodes)[j].NodeUsage.node
+//@   assert before call scorer#1: #iusage: $arg0 == iNodeUsage && sameUsage(iNodeUsage, selUsage(deref($fv_nodes)[i], deref($fv_prod))) && $arg1 == lastresult("GetNodeRawAllocatableFromNode")
+//@   assert before call scorer#2: #jusage: $arg0 == jNodeUsage && sameUsage(jNodeUsage, selUsage(deref($fv_nodes)[j], deref($fv_prod))) && $arg1 == lastresult("GetNodeRawAllocatableFromNode") && iScore == lastresult("scorer")
+//@   assert at return: #order: jScore == lastresult("scorer") && (result <==> (deref($fv_ascending) ? iScore < jScore : iScore > jScore))
+
+// Pod order on one overloaded node: the pods handed to the sorter are the removable pods with the node's pod
+// metrics; the usage key scores a pod only against the resources that exceed the (prod) high threshold, each
+// by the amount of the excess, weighted by the configured weight of exactly those resources.
+//@ func sortPodsOnOneOverloadedNode [C18]
+//@   assert before call SortPodsByUsage: #what: $arg1 == removablePods && $arg2 == srcNode.NodeUsage.podMetrics
+//@   assert before call SortPodsByUsage: #excess: forall n corev1.ResourceName :: has($arg0, n) <==> overAt(selUsage(srcNode, prod), selHigh(srcNode, prod), n)
+//@   assert before call SortPodsByUsage: #excessval: forall n corev1.ResourceName :: has($arg0, n) ==> val($arg0, n) == deref(selUsage(srcNode, prod)[n]) - deref(selHigh(srcNode, prod)[n])
+//@   assert before call SortPodsByUsage: #weights: forall n corev1.ResourceName :: (has($arg4, n) <==> has($arg0, n)) && (has($arg4, n) ==> val($arg4, n) == val(resourceWeights, n))
+//@   loop 1 invariant fresh(weights) && weights != nil && fresh(resourcesThatExceedThresholds) && resourcesThatExceedThresholds != nil && resourcesThatExceedThresholds != overusedResources
+//@   loop 1 invariant forall n corev1.ResourceName :: $seen[n] ==> has(overusedResources, n)
+//@   loop 1 invariant forall n corev1.ResourceName :: has(overusedResources, n) <==> overAt(selUsage(srcNode, prod), selHigh(srcNode, prod), n)
+//@   loop 1 invariant forall n corev1.ResourceName :: has(overusedResources, n) ==> val(overusedResources, n) == deref(selUsage(srcNode, prod)[n])
+//@   loop 1 invariant forall n corev1.ResourceName :: (has(resourcesThatExceedThresholds, n) <==> $seen[n]) && (has(weights, n) <==> $seen[n])
+//@   loop 1 invariant forall n corev1.ResourceName :: $seen[n] ==> val(resourcesThatExceedThresholds, n) == deref(selUsage(srcNode, prod)[n]) - deref(selHigh(srcNode, prod)[n]) && val(weights, n) == val(resourceWeights, n)
